@@ -845,6 +845,9 @@ OMP_CONTINUATION_TABLE = [
     ("!$   y + &", False, "     y + ", True),
     ("!$ & 'a&b' // &", False, " 'a&b' // ", True),
     ("   & w", False, " w", False),
+    # the previous line ended inside a character literal: the sentinel is still the sentinel (it is in columns 1-2 of the physical line)
+    ("!$     &def'", False, "def'", False, "'"),
+    ("!$ &de' // &", False, "de' // ", True, "'"),
 ]
 
 
@@ -887,7 +890,9 @@ def rule_continuation(m, rid, omp=False):
             return r
     bad = []
     try:
-        for text, first, want_text, want_cont in (OMP_CONTINUATION_TABLE if omp else CONTINUATION_TABLE):
+        for row in (OMP_CONTINUATION_TABLE if omp else CONTINUATION_TABLE):
+            text, first, want_text, want_cont = row[:4]
+            q0 = row[4] if len(row) > 4 else None
             r.instances += 1
             lines = [] if first else ["x = 1 + "]
             n0 = len(lines)
@@ -897,7 +902,7 @@ def rule_continuation(m, rid, omp=False):
                 me.fields["_re_omp_sentinel_cont"] = omp_rx
                 me.fields["replace_omp_sentinels"] = lambda l_, rx_: ev.run_function(omp_fn.node, [l_, rx_])
             env = {"line": text, "lines": lines, "lines_append": lines.append, "get_single_line": lambda: "<next>",
-                   "self": me, "endlineno": 0, "startlineno": 0, "had_omp_sentinels": bool(omp), "start_index": 0, "qchar": None,
+                   "self": me, "endlineno": 0, "startlineno": 0, "had_omp_sentinels": bool(omp), "start_index": 0, "qchar": q0,
                    "handle_inline_comment": lambda l_, n_, q_=None: (l_, q_, False), "put_item": lambda x: None,
                    "have_comment": False, "label": None, "name": None, "is_f2py_directive": False}
             cont = None
